@@ -930,6 +930,7 @@ func c16Case(ctx *Ctx, v cty.Value, ct cty.Type, tag string) {
 	}
 	if oracleOK && (tree != nil || err != nil || p) {
 		ctx.Add("mp.marshal", impl, w, tw, oracle)
+		ctx.Add("d16.shape", "wf:true shape:true ok-or-err:true", w, tw, oracle) // d16: hypotheses of marshal_total_partial hold of every generated conforming value
 		if !conforms {
 			// d16: the convert.Convert path of Marshal.  A conversion that builds a set orders its members by the
 			// real hash: with a set type in sight both sides print every array with its members sorted.
